@@ -167,6 +167,11 @@ def cases(tier, seed):
             if zoo.children(spec):
                 break
         yield {"kind": "nested", "spec": spec, "pick": int(rng.integers(0, 10 ** 6))}
+    # heterogeneous meta-estimators over (name, estimator, columns) triples, with entries that are the string 'drop'
+    for i in range(40 if tier == "quick" else 400):
+        k = int(rng.integers(2, 5))
+        yield {"kind": "nested-columns", "which": ["colens", "coltrans"][i % 2], "entries": ["drop" if rng.random() < 0.3 else "est" for _ in range(k)],
+               "ops": [[["replace", "drop", "set", "undrop"][int(rng.integers(0, 4))], int(rng.integers(0, k))] for _ in range(int(rng.integers(1, 5)))]}
 
 
 def _same(a, b):
@@ -225,7 +230,76 @@ def run_case(case, ctx):
         return _params(case, ctx)
     if case["kind"] == "state":
         return _state(case, ctx)
+    if case["kind"] == "nested-columns":
+        return _nested_columns(case, ctx)
     return _nested(case, ctx)
+
+
+def _nested_columns(case, ctx):
+    """column ensembles / column transformers: names address components, the column specification stays with its name, 'drop' entries keep their place"""
+    from sktime.classification.interval_based import TimeSeriesForestClassifier
+    from sktime.transformations.panel.dictionary_based import PAA
+    colens = case["which"] == "colens"
+    if colens:
+        from sktime.classification.compose import ColumnEnsembleClassifier as Meta
+        mk = lambda j: TimeSeriesForestClassifier(n_estimators=2 + j)  # noqa
+        attr, pname = "estimators", "n_estimators"
+    else:
+        from sktime.transformations.panel.compose import ColumnTransformer as Meta
+        mk = lambda j: PAA(num_intervals=2 + j)  # noqa
+        attr, pname = "transformers", "num_intervals"
+    model = [["e%d" % j, ("drop" if e == "drop" else mk(j)), [j]] for j, e in enumerate(case["entries"])]     # reference model of the list
+    ok, est = ctx.call("nested-columns:construct-exception:" + case["which"], lambda: Meta([tuple(t) for t in model]))
+    if not ok:
+        return
+
+    def agree(where):
+        got = list(getattr(est, attr))
+        good = len(got) == len(model) and all(g[0] == m[0] and (g[1] is m[1] or (isinstance(m[1], str) and g[1] == m[1])) and list(g[2]) == list(m[2]) for g, m in zip(got, model))
+        ctx.check("nested.replace", good, "nested-columns:%s:list-differs-from-model" % case["which"],
+                  "after %s the (name, estimator, columns) list is not what the calls by name describe" % where,
+                  got=[(g[0], type(g[1]).__name__ if not isinstance(g[1], str) else g[1], list(g[2])) for g in got],
+                  expected=[(m[0], type(m[1]).__name__ if not isinstance(m[1], str) else m[1], list(m[2])) for m in model])
+        ok, deep = ctx.call("nested-columns:get_params-exception:" + case["which"], est.get_params, deep=True)
+        if ok:
+            for m in model:
+                listed = m[0] in deep and (deep[m[0]] is m[1] or (isinstance(m[1], str) and deep[m[0]] == m[1]))
+                ctx.check("nested.get", listed, "nested-columns:%s:component-not-listed-under-its-name" % case["which"], "get_params(deep=True) does not list every component under its name",
+                          name=m[0], dropped=isinstance(m[1], str), where=where)
+                if not isinstance(m[1], str):
+                    key = "%s__%s" % (m[0], pname)
+                    ctx.check("nested.get", key in deep and deep[key] == getattr(m[1], pname), "nested-columns:%s:component-parameter-missing-or-wrong" % case["which"],
+                              "component__param does not read the component's parameter", path=key, where=where)
+        return good
+    if not agree("construction"):
+        return
+    for n_op, (op, j) in enumerate(case["ops"]):
+        name = model[j][0]
+        if op == "replace" or (op == "undrop" and not isinstance(model[j][1], str)) or (op == "set" and isinstance(model[j][1], str)):
+            new = mk(10 + n_op)
+            ok, _ = ctx.call("nested-columns:replace-exception:" + case["which"], est.set_params, **{name: new})
+            if ok:
+                model[j][1] = new
+        elif op == "drop":
+            ok, _ = ctx.call("nested-columns:replace-exception:" + case["which"], est.set_params, **{name: "drop"})
+            if ok:
+                model[j][1] = "drop"
+        elif op == "undrop":
+            new = mk(20 + n_op)
+            ok, _ = ctx.call("nested-columns:replace-exception:" + case["which"], est.set_params, **{name: new})
+            if ok:
+                model[j][1] = new
+        else:  # set a nested parameter
+            v = 30 + n_op
+            ok, _ = ctx.call("nested-columns:set_params-exception:" + case["which"], est.set_params, **{"%s__%s" % (name, pname): v})
+            if ok:
+                ctx.check("nested.set", getattr(model[j][1], pname) == v, "nested-columns:%s:component-parameter-not-written" % case["which"], "component__param did not write the component's parameter",
+                          name=name)
+        if not ok or not agree("%s of %s (call %d)" % (op, name, n_op)):
+            return
+    ctx.event(kind="nested-columns", which=case["which"], entries=case["entries"], ops=case["ops"])
+    ctx.tag("nested-columns:" + case["which"])
+    ctx.nontrivial = True
 
 
 def _construct(cls, name, a):
